@@ -784,7 +784,10 @@ func (b *outlierDetectionBalancer) failurePercentageAlgorithm() {
 	for _, epInfo := range endpointsToConsider {
 		bucket := epInfo.callCounter.inactiveBucket
 		failurePercentage := (float64(bucket.numFailures) / float64(bucket.numSuccesses+bucket.numFailures)) * 100
-		if failurePercentage > float64(b.cfg.FailurePercentageEjection.Threshold) {
+		// The comparison is made in integer arithmetic: the floating-point
+		// quotient can land just above a threshold that is met exactly (7
+		// failures out of 25 give 28.000000000000004).
+		if uint64(bucket.numFailures)*100 > uint64(ejectionCfg.Threshold)*(uint64(bucket.numSuccesses)+uint64(bucket.numFailures)) {
 			channelz.Infof(logger, b.channelzParent, "FailurePercentage algorithm detected outlier: %s, failurePercentage=%f", epInfo, failurePercentage)
 			// Check if max ejection percentage would prevent ejection.
 			if float64(b.numEndpointsEjected)/float64(b.endpoints.Len())*100 >= float64(b.cfg.MaxEjectionPercent) {
